@@ -12,7 +12,10 @@ package main
 //	       | e                                       one pass of timeBasedMetaEntryWalFlush
 //	  r ::= 0 | 1   outcome of `GetWALStats() > MAX_WAL_FILE_SIZE_BYTES` for the appends of this op (the harness sets
 //	                MAX_WAL_FILE_SIZE_BYTES to 2^62 resp. 0 before the op): 1 = every append is followed by a roll-over
-//	       | xb:<m> | xr:<m> | xe:<m> | xn:<m> | xf:<m>   only as the LAST op and with one shard: a crash INSIDE an operation —
+//	       | xb:<m> | xr:<m> | xe:<m> | xn:<m> | xf:<m> | xs:<m>   only as the LAST op and with one shard: a crash INSIDE an operation —
+//	                xs: a size-triggered segment rotation of shard 0 (like s0) that dies right after the m-th completed step of
+//	                    rotateSegment (FlushMetricNames ; DeleteWAL of each datapoint-WAL file ; initNewDpWal ; DeleteWAL of the
+//	                    name WAL ; initNewMNameWAL ; AddMetricsMetaEntry) — the block rotation in front of it has completed;
 //	                xb: a block-rotation pass (like b) that dies right after the m-th completed step of rotateBlock
 //	                    (flushBlock ; DeleteWAL of each WAL file ; initNewDpWal); xe: a meta-WAL write (like e) that dies
 //	                    right after the m-th step of Wal.Write (OpenFile of the temp file ; writeBlockToFile ; Sync ; Rename);
@@ -106,7 +109,7 @@ func init() {
 		os.Exit(0)
 	}
 	register(&Suite{Name: "walrecover", Gen: genWalRecover, Exec: execWalRecover, Parallel: 5,
-		Rule: "writer histories (1-3 series over 1-3 shards, WAL flushes, roll-overs incl. > 10 files per block, block and segment rotations, name/meta WAL flushes, single appends > 1 MB, a segment rotation after the last meta-WAL write) ended by a crash between two operations, inside a block rotation / a meta-WAL write, or followed by a first restart that dies inside RecoverWALData / between the system calls of its flushBlock / inside RecoverMNameWALData; recovery by the real startup functions in a fresh process; distinct = sha1(op line); non-trivial = at least one completed datapoint"})
+		Rule: "writer histories (1-3 series over 1-3 shards, WAL flushes, roll-overs incl. > 10 files per block, block and segment rotations, name/meta WAL flushes, single appends > 1 MB, a segment rotation after the last meta-WAL write) ended by a crash between two operations, inside a block rotation / a segment rotation (metric names of different lengths, some in the name WAL, some only buffered) / a meta-WAL write, or followed by a first restart that dies inside RecoverWALData / between the system calls of its flushBlock / inside RecoverMNameWALData; recovery by the real startup functions in a fresh process; distinct = sha1(op line); non-trivial = at least one completed datapoint"})
 }
 
 // ---------------------------------------------------------------- op line
@@ -119,7 +122,7 @@ type c10rOp struct {
 	roll bool
 	seed uint64
 	n, k int
-	sub  byte // x ops: 'b', 'r', 'e', 'n', 'f'
+	sub  byte // x ops: 'b', 'r', 'e', 'n', 'f', 's'
 	m    int  // x ops: number of completed steps before the process dies
 }
 
@@ -234,7 +237,7 @@ func c10rParse(line string) (*c10rCase, bool) {
 				return nil, false
 			}
 		case 'x':
-			if len(p) != 2 || len(p[0]) != 1 || !strings.Contains("brenf", p[0]) || c.nsh != 1 {
+			if len(p) != 2 || len(p[0]) != 1 || !strings.Contains("brenfs", p[0]) || c.nsh != 1 {
 				return nil, false
 			}
 			op.sub = p[0][0]
@@ -452,6 +455,10 @@ func c10rWrite(c *c10rCase, emit func(interface{})) {
 				metrics.VerifC10RMetricsFlushOnce() // may die inside (VERIF_CRASH_AT)
 			case 'e':
 				metrics.VerifC10RMetaEntryWalFlushOnce()
+			case 's':
+				if err := metrics.VerifC10RSegRotate("0"); err != nil { // may die inside (VERIF_CRASH_AT)
+					st.Err = err.Error()
+				}
 			}
 		}
 		switch op.kind {
@@ -667,7 +674,14 @@ func c10rRecover(tsids map[string]uint64, emit func(interface{})) {
 			if _, err := os.Stat(mKey + ".mnm"); err != nil {
 				continue
 			}
-			names, err := series.GetAllMetricNames(mKey)
+			names, err := func() (m map[string]bool, err error) {
+				defer func() { // the reader indexes past the end of a file with trailing bytes
+					if r := recover(); r != nil {
+						m, err = nil, fmt.Errorf("panic: %v", r)
+					}
+				}()
+				return series.GetAllMetricNames(mKey)
+			}()
 			if err != nil {
 				res.Names[m.Name()+"/"+sg.Name()] = []string{"error: " + err.Error()}
 				continue
@@ -820,6 +834,31 @@ func c10rIsStep(sub byte) func(string, []string) bool {
 	case 'n':
 		return func(fn string, calls []string) bool {
 			return fn == "RecoverMNameWALData" && (c10rHas(calls, "deleteWalFile") || c10rHas(calls, "FlushMetricNames"))
+		}
+	case 's':
+		// rotateSegment: FlushMetricNames ; (cleanAndInitNewDpWal:) one DeleteWAL per datapoint-WAL file, initNewDpWal ;
+		// (cleanAndInitNewMNameWal:) DeleteWAL of the name WAL, initNewMNameWAL ; AddMetricsMetaEntry.  The block rotation that
+		// CheckAndRotate runs first uses deleteDpWalFiles / cleanAndInitNewDpWal as well: counted only once rotateSegment has begun.
+		begun := false
+		return func(fn string, calls []string) bool {
+			switch {
+			case fn == "rotateSegment" && c10rHas(calls, "FlushMetricNames"):
+				begun = true
+				return true
+			case !begun:
+				return false
+			case fn == "deleteDpWalFiles" && c10rHas(calls, "DeleteWAL"):
+				return true
+			case fn == "cleanAndInitNewDpWal" && c10rHas(calls, "initNewDpWal"):
+				return true
+			case fn == "deleteMNameWALFile" && c10rHas(calls, "DeleteWAL"):
+				return true
+			case fn == "cleanAndInitNewMNameWal" && c10rHas(calls, "initNewMNameWAL"):
+				return true
+			case fn == "rotateSegment" && c10rHas(calls, "AddMetricsMetaEntry"):
+				return true
+			}
+			return false
 		}
 	case 'f':
 		// the system calls of one flushBlock, in the order of the source: FlushSummary ; OpenFile ×2 ; the Writes that follow them
@@ -995,7 +1034,7 @@ func execWalRecover(line string) Result {
 	crashClass := ""
 	if crashed {
 		crashClass = map[byte]string{'b': "crash-in-block-rotation/", 'r': "crash-in-recovery/", 'e': "crash-in-meta-write/",
-			'n': "crash-in-name-recovery/", 'f': "crash-in-recovery-flush/"}[xop.sub]
+			'n': "crash-in-name-recovery/", 'f': "crash-in-recovery-flush/", 's': "crash-in-segment-rotation/"}[xop.sub]
 	}
 
 	res := Result{}
@@ -1056,7 +1095,7 @@ func execWalRecover(line string) Result {
 			if c10rRestartCrash(op.sub) {
 				continue
 			}
-			op.kind = map[byte]byte{'b': 'b', 'e': 'e'}[op.sub]
+			op.kind = map[byte]byte{'b': 'b', 'e': 'e', 's': 's'}[op.sub]
 		}
 		if st.Err != "" {
 			return fail("writer op "+strconv.Itoa(i), st.Err)
@@ -1151,6 +1190,19 @@ func execWalRecover(line string) Result {
 			metaWal = map[nkey][2]int{}
 			for _, s := range st.Post {
 				metaWal[nkey{s.Mid, s.Suffix}] = [2]int{int(s.CurrBlockNum), int(s.DpCount)}
+			}
+		}
+	}
+	if crashed && xop.sub == 's' {
+		// the writer died inside rotateSegment, after FlushMetricNames (its first step) had completed: every name of the
+		// segment is in its .mnm file and must still be there after recovery
+		for _, pre := range states[len(states)-1].Post {
+			nk := nkey{pre.Mid, pre.Suffix}
+			if doneNames[nk] == nil {
+				doneNames[nk] = map[string]bool{}
+			}
+			for n := range seenNames[nk] {
+				doneNames[nk][n] = true
 			}
 		}
 	}
@@ -1331,7 +1383,7 @@ func execWalRecover(line string) Result {
 			continue
 		}
 		hasPend := false
-		if crashed && xop.sub == 'b' {
+		if crashed && (xop.sub == 'b' || xop.sub == 's') {
 			for _, l := range pending[k.mid] {
 				if l.key == k {
 					hasPend = true
@@ -1361,7 +1413,7 @@ func execWalRecover(line string) Result {
 			// datapoints that were only buffered when the writer died inside the block rotation: the block file written by
 			// the interrupted rotation holds them, a block rebuilt from the WAL does not — both are accepted
 			withPend := w
-			if crashed && xop.sub == 'b' {
+			if crashed && (xop.sub == 'b' || xop.sub == 's') {
 				sid, _ := strconv.Atoi(s)
 				pts := append([][2]uint64{}, completed[k][sid]...)
 				for _, l := range pending[k.mid] {
@@ -1379,6 +1431,21 @@ func execWalRecover(line string) Result {
 				pf("completed-append-lost", fmt.Sprintf("block %v series %s: %d of %d completed datapoints are missing after recovery: %s", k, s, w.N-g.N, w.N, describe(w, g)))
 			default:
 				pf("phantom-datapoints", fmt.Sprintf("block %v series %s: datapoints that were not completed (or never written) came back: %s", k, s, describe(w, g)))
+			}
+		}
+	}
+	for key, names := range rec.Names {
+		// nothing but metric names that were ingested into the segment may be in its .mnm file, and the file must be readable
+		var mid string
+		var seg uint64
+		if n, _ := fmt.Sscanf(strings.Replace(key, "/", " ", 1), "%s %d", &mid, &seg); n != 2 {
+			continue
+		}
+		for _, n := range names {
+			if strings.HasPrefix(n, "error: ") {
+				pf("names-file-unreadable", fmt.Sprintf("the .mnm file of shard %s segment %d cannot be read after recovery: %s", mid, seg, n))
+			} else if !seenNames[nkey{mid, seg}][n] {
+				pf("phantom-metric-name", fmt.Sprintf("the .mnm file of shard %s segment %d holds %q after recovery, a name that was never ingested into that segment", mid, seg, trunc(n, 60)))
 			}
 		}
 	}
@@ -1411,6 +1478,23 @@ func execWalRecover(line string) Result {
 		}
 		return false
 	}
+	// the writer died inside a segment rotation: when AddMetricsMetaEntry (its last step) had completed, the segment has
+	// the entry of its rotation — accepted next to the meta-WAL one
+	rotSnap := func(nk nkey, got map[string]int) bool {
+		if !(crashed && xop.sub == 's') {
+			return false
+		}
+		for _, sh := range last {
+			blocks := int(sh.CurrBlockNum)
+			if sh.BlkEncSize > 0 {
+				blocks++
+			}
+			if sh.Mid == nk.mid && sh.Suffix == nk.seg && got["blocks"] == blocks && got["dps"] == int(sh.DpCount) {
+				return true
+			}
+		}
+		return false
+	}
 	metaKeys := map[nkey]bool{}
 	for k := range metaWant {
 		metaKeys[k] = true
@@ -1427,7 +1511,7 @@ func execWalRecover(line string) Result {
 		} else if okR && !(got["blocks"] == rot[0] && got["dps"] == rot[1]) && okW && got["blocks"] == wl[0] && got["dps"] == wl[1] {
 			// the entry written by the rotation describes the whole segment; the meta WAL held an older state of it
 			pf("meta-entry-older-than-rotation", fmt.Sprintf("shard %s segment %d was rotated with blocks=%d dps=%d, after recovery its meta entry is the older meta-WAL snapshot blocks=%d dps=%d (and its time range): queries into the newer part of the segment miss it", nk.mid, nk.seg, rot[0], rot[1], got["blocks"], got["dps"]))
-		} else if !(okR && got["blocks"] == rot[0] && got["dps"] == rot[1]) && !(okW && got["blocks"] == wl[0] && got["dps"] == wl[1]) && !newSnap(nk, got) {
+		} else if !(okR && got["blocks"] == rot[0] && got["dps"] == rot[1]) && !(okW && got["blocks"] == wl[0] && got["dps"] == wl[1]) && !newSnap(nk, got) && !rotSnap(nk, got) {
 			pf("meta-entry-lost", fmt.Sprintf("shard %s segment %d: meta entry after recovery blocks=%d dps=%d is none of the written ones (rotation %v %v, meta WAL %v %v)", nk.mid, nk.seg, got["blocks"], got["dps"], okR, rot, okW, wl))
 		}
 	}
@@ -1623,6 +1707,45 @@ func genWalRecover(r *rand.Rand, n int, tier string) []string {
 					m = 1 + r.Intn(6) // FlushSummary, OpenFile ×2, Write ×2
 				}
 				emit(fmt.Sprintf("x%s:%d", sub, m))
+			}))
+		case i%25 == 1 || (tier == "thorough" && i%25 == 2):
+			// the writer dies INSIDE a segment rotation (one shard), after m steps of rotateSegment: metric names of different
+			// lengths (m<i>, bulk), some of them in the name WAL (n), some only buffered: after FlushMetricNames the .mnm file
+			// holds them all, the name WAL fewer — recovery must end with exactly the names of the file
+			nser := 1 + r.Intn(3)
+			out = append(out, mk(1, []int{1, 2, 1000}[r.Intn(3)], nser, func(_ []int, emit func(string), dp func(int, bool) string) {
+				bulk := func() {
+					emit(fmt.Sprintf("g%d:%d:%d:%d:0", r.Uint64()>>1, 1+r.Intn(4), 1+r.Intn(2), 1700000000+r.Intn(1000000)))
+				}
+				if r.Intn(3) == 0 { // an earlier segment
+					emit(dp(r.Intn(nser), false))
+					emit("s0")
+				}
+				first := r.Intn(2) == 0
+				if first {
+					bulk()
+				}
+				for k := 0; k < 1+r.Intn(3); k++ {
+					emit(dp(r.Intn(nser), false))
+				}
+				if r.Intn(4) != 0 {
+					emit("n") // the names so far are in the name WAL
+				}
+				if r.Intn(2) == 0 {
+					emit("f0")
+				}
+				if r.Intn(3) == 0 {
+					emit("e")
+				}
+				if !first || r.Intn(2) == 0 { // names that are only buffered when the rotation starts
+					if !first {
+						bulk()
+					}
+					if r.Intn(2) == 0 {
+						emit(dp(r.Intn(nser), false))
+					}
+				}
+				emit(fmt.Sprintf("xs:%d", 1+r.Intn(7)))
 			}))
 		case i%25 == 11:
 			// malformed
